@@ -15,6 +15,7 @@ import z3
 from pyvc.execu import to_bool, z3ify
 from pyvc.main import Prop
 from pyvc.values import Fn, Obj, Opaque, Undecided, fresh_name
+from pyvc.execu import z3ify as _z
 from .C17 import region
 
 AGENTS = ["agent_0", "agent_1"]
@@ -161,6 +162,118 @@ def build(tier):
     P.specns["wrapper_post"] = wrapper_post
     P.contract("agilerl.wrappers.pettingzoo_wrappers.PettingZooAutoResetParallelWrapper.step", setup=wsetup,
                params={}, requires=[], frame_fields=False, ensures=["wrapper_post(result)"], replay="c12:wrapper")
+    # ---- slice arithmetic of the shared observation buffers (Box spaces; Dict / Tuple members use the same three lines per member)
+    from pyvc.values import Seq, PyRaise
+    NE, SZ, IDX = z3.Int("num_envs"), z3.Int("size"), z3.Int("index")
+    BUF0 = z3.Const("buffer0", z3.ArraySort(z3.IntSort(), z3.RealSort()))
+    OBS = z3.Const("obs_flat", z3.ArraySort(z3.IntSort(), z3.RealSort()))
+
+    class Buf:
+        def __init__(self):
+            self.arr = BUF0
+            self.n = NE * SZ
+
+        def getattr(self, ex, st, name):
+            if name == "get_obj":
+                return Fn(model=lambda ex, st, a, k: self, name=name)
+            raise Undecided(f"buffer attribute {name}")
+
+        def getitem(self, ex, st, idx):
+            if isinstance(idx, slice) and idx.step is None:
+                return BufView(self, z3ify(idx.start), z3ify(idx.stop))
+            raise Undecided("buffer index")
+
+    class BufView:
+        def __init__(self, base, lo, hi):
+            self.base, self.lo, self.hi = base, lo, hi
+
+    class FlatObs:
+        def __init__(self):
+            self.arr, self.n = OBS, SZ
+
+        def getattr(self, ex, st, name):
+            if name == "flatten":
+                return Fn(model=lambda ex, st, a, k: self, name=name)
+            raise Undecided(name)
+
+    def copyto(ex, st, a, k):
+        dst, src = a
+        if not isinstance(dst, BufView) or not isinstance(src, FlatObs):
+            raise Undecided("np.copyto on unknown values")
+        # numpy: the slice is clamped to the buffer; source and destination extents must agree
+        lo, hi, n = dst.lo, dst.hi, dst.base.n
+        ok = z3.And(0 <= lo, lo <= hi, hi <= n, hi - lo == src.n)
+        ex.oblige(st, f"{ex.prop}.write_to_shared_memory.slice-fits", ok, "lib-pre", None, "destination slice lies inside the buffer and has the observation's size")
+        j = z3.Int("j!ct")
+        dst.base.arr = z3.Lambda([j], z3.If(z3.And(lo <= j, j < hi), src.arr[j - lo], dst.base.arr[j]))
+
+    class SpaceM:
+        def isinstance(self, ex, st, names):
+            return "Box" in names
+
+        def getattr(self, ex, st, name):
+            if name == "shape":
+                return Opaque("shape")
+            if name == "dtype":
+                return Opaque("dtype")
+            raise Undecided(name)
+    buf = Buf()
+
+    def wsm_setup(ex, st, fr):
+        buf.__init__()
+        st.assume(z3.And(NE >= 1, SZ >= 1, 0 <= IDX, IDX < NE))
+        st.locals.update(dict(index=IDX, observation={"agent_0": FlatObs()}, shared_memory={"agent_0": buf}, obs_space={"agent_0": SpaceM()}))
+    P.lib["numpy.prod"] = lambda ex, st, a, k: SZ
+    P.lib["numpy.frombuffer"] = lambda ex, st, a, k: a[0]
+    P.lib["numpy.copyto"] = copyto
+    P.lib["numpy.asarray"] = lambda ex, st, a, k: a[0]
+
+    def wsm_post():
+        j = z3.Int("j!wp")
+        lo = IDX * SZ
+        return z3.ForAll([j], z3.Implies(z3.And(0 <= j, j < NE * SZ),
+                                         buf.arr[j] == z3.If(z3.And(lo <= j, j < lo + SZ), OBS[j - lo], BUF0[j])))   # own slice written in order, every other env's slice untouched
+    P.specns["wsm_post"] = wsm_post
+    P.contract(VEC + "write_to_shared_memory", setup=wsm_setup, params={}, requires=[], frame_fields=False,
+               ensures=["wsm_post()"], replay="c12:vecenv")
+
+    class RawView:
+        def getattr(self, ex, st, name):
+            if name == "reshape":
+                def reshape(ex, st, a, k):
+                    shp = a[0]
+                    if not (isinstance(shp, tuple) and len(shp) == 2):
+                        raise Undecided("reshape to other than (num_envs, size)")
+                    return Reshaped(shp[0], shp[1])
+                return Fn(model=reshape, name=name)
+            raise Undecided(name)
+
+    class Reshaped:
+        """C-order reshape of a flat buffer to (rows, cols): element (i, k) is flat[i*cols + k] (trusted numpy layout)"""
+
+        def __init__(self, rows, cols):
+            self.rows, self.cols = rows, cols
+
+        def getattr(self, ex, st, name):
+            if name == "astype":
+                return Fn(model=lambda ex, st, a, k: self, name=name)
+            raise Undecided(name)
+
+    class BoxShape(SpaceM):
+        def getattr(self, ex, st, name):
+            if name == "shape":
+                return (SZ,)
+            return SpaceM.getattr(self, ex, st, name)
+
+    def obs_setup(ex, st, fr):
+        st.assume(z3.And(NE >= 1, SZ >= 1))
+        o = Obj("model.Observations", {"obs_spaces": {"agent_0": BoxShape()}, "obs_view": {"agent_0": RawView()}, "num_envs": NE}, label="self")
+        st.locals.update(dict(self=o, agent="agent_0"))
+    P.specns["obs_post"] = lambda r: z3.And(z3.BoolVal(isinstance(r, Reshaped)), *( [z3ify(r.rows) == NE, z3ify(r.cols) == SZ] if isinstance(r, Reshaped) else []))
+    P.contract(VEC + "Observations.__getitem__", setup=obs_setup, params={}, requires=[], frame_fields=False,
+               ensures=["obs_post(result)"], replay="c12:vecenv")
+    P.trusted += ["numpy: frombuffer is a view of the shared array; dest[a:b] is a view; copyto writes element-wise; reshape((n, s)) of a flat buffer is C-order "
+                  "(element (i,k) = flat[i*s+k]) - so worker i's slice [i*s,(i+1)*s) is exactly what position i of the returned array reads"]
     P.native.append(dict(name="vecenv", adapter="c12:vecenv", thorough_only=True,
                          bound="8 scripted scenarios: 1-3 sub-envs, episode lengths 1-6, ends by termination / truncation / mixed, agent leaving early, copy on/off",
                          payload={"mode": "search"}))
@@ -168,6 +281,6 @@ def build(tier):
                   "visible across processes; write_to_shared_memory(index, obs, ...) publishes obs in slot `index` (slice arithmetic not under contract yet)",
                   "two agents with symbolic values/flags (key set concrete)"]
     P.assumptions += ["scheduling / IPC / dtype conversion are outside the contracts (DESIGN 6)"]
-    P.uncovered += ["slice arithmetic of write_to_shared_memory / Observations.__getitem__ and step_wait ordering (native adapter only)",
+    P.uncovered += ["Dict / Tuple observation members of the shared buffers (same three lines per member, not under contract); step_wait ordering (native adapter only)",
                     "shapes and dtypes of the returned arrays", "more than two agents"]
     return P
